@@ -7,7 +7,7 @@
     [binary_search_by] (Model/RustStd.v), inserted at the position the search returned — instead of
     the association list [e_vars].  Proofs/VaryProofs.v shows that the two layers coincide.
     Definitions only. *)
-From KV Require Export Bytes RustInt Range CacheControl Cache Fixture RustStd.
+From KV Require Export Bytes RustInt Range CacheControl Cache Fixture RuleSet RustStd.
 Open Scope N_scope.
 
 (** ---- [HeaderMap::get(&str)] (http 1.5.0, header/name.rs [HEADER_CHARS], [parse_hdr]) ----
@@ -462,8 +462,23 @@ Section LayerV.
 End LayerV.
 
 (** ---- instantiation with the fixture menu (Model/Fixture.v = harness/src/c00pipe.rs) ---- *)
+(** [host.vary] is an [extensions::RuleSet<Settings>] (Model/RuleSet.v, C14): the settings of a path are those of
+    the first rule in the vector [add_mut] keeps (exact paths before patterns "<prefix>*", longer before shorter)
+    that matches it; no rule = no settings *)
 Definition rules_fix (vr : list (bytes * list vrule)) (p : bytes) : list rule :=
-  map (fun '(n, xf, d) => mkRule n (xform xf) d) (rules_for p vr).
+  map (fun '(n, xf, d) => mkRule n (xform xf) d)
+      (match rs_get (rs_build rs_add vr) p with Some rs => rs | None => [] end).
+
+(** handler kind 5 (harness/src/c05.rs only): "<body>?<query>" followed by the transformed tuple, i.e. kind 3
+    with the query made part of the prefix — for pages whose cache key includes the query *)
+Definition q_part (r : request) : bytes := match rq_query r with Some (c :: q) => 63 :: c :: q | _ => [] end.
+Definition handlers_c05 (handlers : list hspec) (r : request) : list hspec :=
+  map (fun h => if h_kind h =? 5
+                then mkH (h_path h) 3 (h_status h) (h_body h ++ q_part r) (h_headers h) (h_spref h) (h_cpref h)
+                         (h_compress h) (h_tuple h)
+                else h) handlers.
+Definition compute_c05 (handlers : list hspec) (hs : list N) (r : request) (ok : bool) : fat * list N * list bytes :=
+  compute_fix (handlers_c05 handlers r) hs r ok.
 
 (** operations of the harness (harness/src/c05.rs): those of the pipeline harness, a dump of the stored
     variants of a page, and a request that is suspended in its handler ([FPark]) until [FRelease] while
@@ -471,7 +486,7 @@ Definition rules_fix (vr : list (bytes * list vrule)) (p : bytes) : list rule :=
 Inductive fop := FOp (o : op) | FDump (r : request) | FPark (r : request) | FRelease.
 Definition d_fop (x : xval) : option fop :=
   match x with
-  | XL [XN 4; XB t] => Some (FDump (d_request 0 (B "GET") t []))
+  | XL [XN 4; XB t] | XL [XN 4; XB t; XN _] => Some (FDump (d_request 0 (B "GET") t []))   (* the number: for the harness *)
   | XL [XN 5; XN addr; XB m; XB t; hs; XB _] =>
       option_map (fun h => FPark (d_request addr m t h)) (d_list d_pair_bb hs)
   | XL [XN 6] => Some FRelease
@@ -493,14 +508,14 @@ Definition x_dump_spec (s : seen_t) (r : request) : xval :=
 Definition prime_fix (cfg : config) : request -> request := if cf_default_ext cfg then uri_redirect else (fun r => r).
 
 Definition stepV_fix (cfg : config) :=
-  stepV (list N) (compute_fix (cf_handlers cfg)) (cf_cache cfg) (cf_ims cfg) parse_ims_fix sanitize_ok_fix
+  stepV (list N) (compute_c05 (cf_handlers cfg)) (cf_cache cfg) (cf_ims cfg) parse_ims_fix sanitize_ok_fix
         (prime_fix cfg) (fun _ _ => None) (rules_fix (cf_vary cfg)) true.
 
 Definition phase1_fix (cfg : config) :=
   serveV_phase1 (list N) (cf_cache cfg) (cf_ims cfg) parse_ims_fix sanitize_ok_fix
         (prime_fix cfg) (fun _ _ => None).
 Definition phase2_fix (v0 : bool) (cfg : config) :=
-  (if v0 then serveV_phase2_v0 else serveV_phase2) (list N) (compute_fix (cf_handlers cfg)) (cf_cache cfg) (cf_ims cfg)
+  (if v0 then serveV_phase2_v0 else serveV_phase2) (list N) (compute_c05 (cf_handlers cfg)) (cf_cache cfg) (cf_ims cfg)
         (fun _ _ => None) (rules_fix (cf_vary cfg)) true.
 
 Definition x_reply (cfg : config) (res : vcache * list N * reply * list bytes * list request) : xval :=
@@ -567,7 +582,7 @@ Definition run_vary := run_vary_gen false.
 Definition run_vary_v0 := run_vary_gen true.
 
 Definition spec_step_fix (cfg : config) :=
-  spec_step (list N) (compute_fix (cf_handlers cfg)) (cf_cache cfg) (cf_ims cfg) (prime_fix cfg) (fun _ _ => None)
+  spec_step (list N) (compute_c05 (cf_handlers cfg)) (cf_cache cfg) (cf_ims cfg) (prime_fix cfg) (fun _ _ => None)
             (rules_fix (cf_vary cfg)).
 
 Fixpoint spec_fix_ops (cfg : config) (s : seen_t) (hs : list N) (ops : list fop) : list xval :=
